@@ -1,22 +1,24 @@
 #!/bin/bash
-# tools/seed_matrix.sh -- run every seeded change against the check of its own property; write detected_by into meta.json
+# tools/seed_matrix.sh [N] -- run every seeded change against the check of its own property (N at a time, default 6);
+# write detected_by into meta.json.  Seeds whose meta.json says "neutralised" are still run (expected: exit 0).
 cd "$(dirname "$0")/.."
-for d in seeded/*/; do
+one() {
+  d="$1"
   id=$(basename $d | sed 's/-.*//')
-  ( out=$(tools/mutant.sh $d/patch.diff $id quick 2>&1)
-    ex=$(echo "$out" | grep -o 'exit=[0-9]*' | tail -1)
-    first=$(echo "$out" | grep '^VIOLATION' | sed 's/.*replays\/[A-Z0-9]*\///; s/\.json.*//' | head -3 | tr '\n' ';')
-    python3 - "$d" "$ex" "$first" <<'PY'
+  out=$(tools/mutant.sh $d/patch.diff $id quick 2>&1)
+  ex=$(echo "$out" | grep -o 'exit=[0-9]*' | tail -1)
+  first=$(echo "$out" | grep '^VIOLATION' | sed 's/.*replays\/[A-Z0-9]*\///; s/\.json.*//' | head -3 | tr '\n' ';')
+  python3 - "$d" "$ex" "$first" <<'PY'
 import json,sys
 d,ex,first=sys.argv[1:4]
-p=d+'meta.json'
+p=d+'/meta.json'
 m=json.load(open(p))
 m['detected_by']=dict(check='./check %s --tier quick'%m['property'], exit=ex, first_violations=[x for x in first.split(';') if x])
-m['detected']= ex=='exit=1'
+if not str(m.get('status','')).startswith('neutralised'):
+    m['detected']= ex=='exit=1'
 json.dump(m,open(p,'w'),indent=1)
 print(d, ex, first[:110])
 PY
-  ) &
-  while [ $(jobs -r | wc -l) -ge 8 ]; do sleep 1; done
-done
-wait
+}
+export -f one
+ls -d seeded/*/ | sed 's:/$::' | xargs -P "${1:-6}" -I{} bash -c 'one {}'
